@@ -1,6 +1,8 @@
 (* C19 — gaps, eps-coverage and eps-F1 agree with their geometric definitions. *)
 From Coq Require Import QArith List Bool.
-From VOPy Require Import QVec Cone Metrics MetricsProofs.
+From VOPy Require Import QVec Cone Metrics MetricsProofs ParetoQ.
+From VOPy Require Hypervolume.
+Module HV := Hypervolume.
 Import ListNotations.
 Open Scope Q_scope.
 
@@ -48,3 +50,23 @@ Theorem C19_true_positives_monotone_in_eps : forall deltas pred e1 e2, e1 <= e2 
   (count_true_eps deltas pred e1 <= count_true_eps deltas pred e2)%nat.
 Proof. exact count_true_mono_eps. Qed.
 Print Assumptions C19_true_positives_monotone_in_eps.
+
+(* hypervolume clause: evaluate.py computes HV(ref; f_W[I]) on the facet values f_W = f W^T.  On every grid of the
+   right dimension the hypervolume of the true Pareto front (the fast routine's output) is never smaller than that
+   of any index subset: each subset member is weakly dominated by a front member (C13), dominance is componentwise
+   order of the facet values, so the subset's dominated region lies inside the front's *)
+Theorem C19_hypervolume_of_front_is_maximal : forall W vs cuts ref I,
+  HV.grid_dim_ok W cuts -> (forall i, In i I -> (i < length vs)%nat) ->
+  HV.hv cuts ref (HV.fW W vs I) <= HV.hv cuts ref (HV.fW W vs (pareto_fast_q W vs)).
+Proof. exact HV.hv_front_max. Qed.
+Print Assumptions C19_hypervolume_of_front_is_maximal.
+
+Theorem C19_hypervolume_monotone_in_region : forall cuts ref A B,
+  (forall z, HV.covered ref A z = true -> HV.covered ref B z = true) -> HV.hv cuts ref A <= HV.hv cuts ref B.
+Proof. exact HV.hv_mono. Qed.
+Print Assumptions C19_hypervolume_monotone_in_region.
+
+Theorem C19_dominance_is_order_of_facet_values : forall W a b,
+  dominates W a b = true <-> Pessimistic.vle (matvec W b) (matvec W a) = true.
+Proof. exact HV.dominates_facet_values. Qed.
+Print Assumptions C19_dominance_is_order_of_facet_values.
